@@ -1007,6 +1007,982 @@ def dist_checks(ctx: Ctx, rng, count: int) -> None:
             ctx.disagreement(f"corr: set_random_seed presence differs for {d}", {"dist": d})
 
 
+# ----------------------------------------------------------------------------- histories on long-lived objects
+#
+# A history is a list of steps executed on ONE world of long-lived objects (circuits, Parameters, distribution
+# objects, ErrorModels, Recks).  The harness keeps its OWN record of what every object is intended to be (Record);
+# nothing is ever read back from the objects under test to decide what is expected.  After every `map` step
+#   * the clauses of the property are evaluated for the CURRENT circuit (re-built from the record, literal values
+#     instead of Parameters, in a fresh pool) and the CURRENT error model of that Reck according to the record;
+#   * the mapped circuit must agree with what a FRESH Reck, holding a fresh error model built from the record (with
+#     the same sharing of distribution objects between its quantities), programs for the re-built circuit and the
+#     same seed;
+#   * the exact model (constant error models) / the tape model (random ones) is compared as for single cases.
+#
+# steps
+#   ["c", op]                       circuit construction op (circgen op, or ["psp", cid, mode, pid] /
+#                                   ["bsp", cid, m1, m2, pid, conv]: phase / reflectivity given as a Parameter)
+#   ["pnew", pid, "ph"|"r", v]      Parameter (phase: point of the unit circle as GQ string, reflectivity: [c, s])
+#   ["pset", pid, v]                Parameter.set
+#   ["dnew", did, dist]             a distribution object
+#   ["enew", eid]                   ErrorModel()
+#   ["eset", eid, attr, did]        eid.<attr> = did                      (attr in bs / loss / off)
+#   ["rnew", rid, form, eid|None]   form: omitted -> Reck(), none -> Reck(None), explicit -> Reck(ErrorModel()),
+#                                   em -> Reck(eid)
+#   ["rset", rid, attr, did]        rid.error_model.<attr> = did          (tuned in place through the property)
+#   ["rassign", rid, eid|None]      rid.error_model = eid  (None: a new ErrorModel())
+#   ["dseed", did, k]               did.set_random_seed(k)                (no effect on a seeded map)
+#   ["ddraw", did, count]           draw values from did                   (no effect on a seeded map)
+#   ["map", rid, cid, seed]         the observation
+
+ATTR = {"bs": "bs_reflectivity", "loss": "loss", "off": "phase_offset"}
+
+
+class Record:
+    """the harness's own record of the intended state"""
+
+    def __init__(self) -> None:
+        self.dists: dict = {}
+        self.ems: dict = {}
+        self.recks: dict = {}
+        self.cops: list = []
+        self.params: dict = {}
+        self.anon = 0
+
+    def new_em(self, eid: str) -> str:
+        for k in ATTR:
+            self.dists[f"{eid}.{k}"] = IDEAL[k]
+        self.ems[eid] = {k: f"{eid}.{k}" for k in ATTR}
+        return eid
+
+    def anon_em(self) -> str:
+        self.anon += 1
+        return self.new_em(f"~e{self.anon}")
+
+    def em_of(self, rid: str) -> tuple[dict, dict]:
+        dids = self.ems[self.recks[rid]]
+        return {k: self.dists[dids[k]] for k in ATTR}, dids
+
+
+class World:
+    """the long-lived objects under test"""
+
+    def __init__(self) -> None:
+        self.pool: dict = {}
+        self.params: dict = {}
+        self.dists: dict = {}
+        self.ems: dict = {}
+        self.recks: dict = {}
+
+
+def param_value(kind: str, v):
+    if kind == "ph":
+        g = GQ.parse(v)
+        return math.atan2(float(g.im), float(g.re))
+    return float(Fraction(v[0]) ** 2)
+
+
+def flat_prog(cops: list, params: dict) -> list:
+    """the construction program with every Parameter replaced by its CURRENT value (as the record has it)"""
+    out = []
+    for op in cops:
+        if op[0] == "psp":
+            out.append(cg.op_ps(op[1], op[2], GQ.parse(params[op[3]][1])))
+        elif op[0] == "bsp":
+            c, s = params[op[4]][1]
+            out.append(cg.op_bs(op[1], op[2], op[3], Fraction(c), Fraction(s), op[5]))
+        else:
+            out.append(op)
+    return out
+
+
+def build_em_shared(em: dict, dids: dict) -> ErrorModel:
+    """fresh error model from the record; quantities that share one distribution object share one fresh object"""
+    objs: dict = {}
+    e = ErrorModel()
+    for k in ATTR:
+        if dids[k] not in objs:
+            objs[dids[k]] = build_dist(em[k])
+        setattr(e, ATTR[k], objs[dids[k]])
+    return e
+
+
+def shared_random(em: dict, dids: dict) -> bool:
+    rnd = [dids[k] for k in ATTR if em[k]["kind"] != "constant"]
+    return len(set(rnd)) < len(rnd)
+
+
+def spec_diff(a: list, b: list) -> str | None:
+    """first difference between two observed component lists (numbers to 1e-9, phases modulo 2*pi)"""
+    if len(a) != len(b):
+        return f"{len(a)} components instead of {len(b)}"
+    for k, (x, y) in enumerate(zip(a, b)):
+        if x[0] != y[0]:
+            return f"component {k} is {x[0]} instead of {y[0]}"
+        if x[0] == "ps":
+            if x[1] != y[1] or not ang_close(x[2], y[2]):
+                return f"component {k}: ps mode {x[1]} phi {x[2]!r} instead of mode {y[1]} phi {y[2]!r}"
+        elif x[0] == "bs":
+            if x[1:3] != y[1:3] or x[4] != y[4] or not abs(x[3] - y[3]) <= TOL:
+                return f"component {k}: bs {x[1:]} instead of {y[1:]}"
+        elif x[0] == "loss":
+            if x[1] != y[1] or not abs(x[2] - y[2]) <= TOL:
+                return f"component {k}: loss {x[1:]} instead of {y[1:]}"
+        elif x != y:
+            return f"component {k}: {x} instead of {y}"
+    return None
+
+
+def apply_step(world: World, rec: Record, st: list) -> str | None:
+    """execute one non-map step on the objects under test and on the record; returns a complaint when the step
+    cannot be executed (an invalid history, e.g. a shrinking candidate)"""
+    name = st[0]
+    try:
+        if name == "c":
+            op = st[1]
+            if op[0] in ("psp", "bsp") and rec.params[op[3 if op[0] == "psp" else 4]][0] != ("ph" if op[0] == "psp" else "r"):
+                return "parameter of the wrong kind"
+            if op[0] == "psp":
+                world.pool[op[1]].ps(op[2], world.params[op[3]])
+            elif op[0] == "bsp":
+                world.pool[op[1]].bs(op[2], op[3], reflectivity=world.params[op[4]], convention=op[5])
+            else:
+                r = cg.apply_op(world.pool, op)
+                if r != "ok":
+                    return f"circuit op {op[:2]} raises {r}"
+            rec.cops.append(op)
+        elif name == "pnew":
+            world.params[st[1]] = lw.Parameter(param_value(st[2], st[3]))
+            rec.params[st[1]] = (st[2], st[3])
+        elif name == "pset":
+            kind = rec.params[st[1]][0]
+            world.params[st[1]].set(param_value(kind, st[2]))
+            rec.params[st[1]] = (kind, st[2])
+        elif name == "dnew":
+            world.dists[st[1]] = build_dist(st[2])
+            rec.dists[st[1]] = st[2]
+        elif name == "enew":
+            world.ems[st[1]] = ErrorModel()
+            rec.new_em(st[1])
+        elif name == "eset":
+            setattr(world.ems[st[1]], ATTR[st[2]], world.dists[st[3]])
+            rec.ems[st[1]][st[2]] = st[3]
+        elif name == "rnew":
+            form = st[2]
+            if form == "omitted":
+                world.recks[st[1]] = Reck()
+                rec.recks[st[1]] = rec.anon_em()
+            elif form == "none":
+                world.recks[st[1]] = Reck(None)
+                rec.recks[st[1]] = rec.anon_em()
+            elif form == "explicit":
+                world.recks[st[1]] = Reck(ErrorModel())
+                rec.recks[st[1]] = rec.anon_em()
+            else:
+                world.recks[st[1]] = Reck(world.ems[st[3]])
+                rec.recks[st[1]] = st[3]
+        elif name == "rset":
+            setattr(world.recks[st[1]].error_model, ATTR[st[2]], world.dists[st[3]])
+            rec.ems[rec.recks[st[1]]][st[2]] = st[3]
+        elif name == "rassign":
+            if st[2] is None:
+                world.recks[st[1]].error_model = ErrorModel()
+                rec.recks[st[1]] = rec.anon_em()
+            else:
+                world.recks[st[1]].error_model = world.ems[st[2]]
+                rec.recks[st[1]] = st[2]
+        elif name == "dseed":
+            d = world.dists[st[1]]
+            if hasattr(d, "set_random_seed"):
+                d.set_random_seed(st[2])
+        elif name == "ddraw":
+            d = world.dists[st[1]]
+            lo, hi = bounds(rec.dists[st[1]])
+            for _ in range(st[2]):
+                v = d.value()
+                if not (lo <= v <= hi):
+                    return f"oracle: bounds: {rec.dists[st[1]]} returned {v!r}, outside its bounds"
+        else:
+            return f"unknown step {name}"
+    except (KeyError, IndexError, TypeError) as e:
+        return f"step {st[:2]} cannot be executed ({exc_class(e)}: {e})"
+    return None
+
+
+def check_map(ctx: Ctx, world: World, rec: Record, st: list, idx: int, c, model: bool = True) -> list[str]:
+    _, rid, cid, seed = st
+    if rid not in world.recks or cid not in world.pool:
+        return ["machinery: map step refers to an unknown object"]
+    em, dids = rec.em_of(rid)
+    # the circuit as it is intended to be NOW, from the record
+    prog = flat_prog(rec.cops, rec.params)
+    ref_pool: dict = {}
+    for op in prog:
+        if cg.apply_op(ref_pool, op) != "ok":
+            return ["machinery: the recorded construction program cannot be replayed"]
+    ref = ref_pool[cid]
+    where = f" [history step {idx}: Reck {rid} maps circuit {cid}, seed {seed}]"
+    live = world.pool[cid]
+    try:
+        before = (np.array(live.U), heralds_of(live))
+    except Exception:  # noqa: BLE001
+        before = None
+    try:
+        mc = world.recks[rid].map(live, seed=seed)
+    except Exception as e:  # noqa: BLE001
+        c("hist:map-raises")
+        return [f"oracle: raises: mapping a lossless circuit raises {exc_class(e)}: {str(e)[:80]}" + where]
+    c("hist:map")
+    probs = oracle({}, ref, mc, em)
+    # mapping only reads the circuit it is given
+    if before is not None and not (mat_close(np.array(live.U), before[0]) and heralds_of(live) == before[1]):
+        probs.append("oracle: argument: Reck.map changed the circuit it was given")
+    rnd = is_random(em)
+    ideal = model_em(em) == model_em(IDEAL)
+    c("hist:em-" + ("random" if rnd else "ideal" if ideal else "constant-noise"))
+    if seed is not None or not rnd:
+        try:
+            fmc = Reck(build_em_shared(em, dids)).map(ref, seed=seed)
+            d = spec_diff(observe_spec(mc), observe_spec(fmc))
+            if d is not None:
+                probs.append("oracle: fresh: the mapped circuit differs from what a fresh Reck with the intended "
+                             f"error model programs for the current circuit and the same seed: {d}")
+            elif heralds_of(mc) != heralds_of(fmc):
+                probs.append("oracle: fresh: heralds differ from those a fresh Reck produces")
+        except Exception as e:  # noqa: BLE001
+            probs.append(f"machinery: the fresh reference mapping raises {exc_class(e)}: {e}")
+    else:
+        c("hist:unseeded-random (bounds/structure only)")
+    if model and not probs and seed is not None:
+        if rnd:
+            if shared_random(em, dids):
+                c("hist:shared-random-distribution:oracle-only")
+            else:
+                c("hist:tape-model")
+                probs += params_problems(ctx, ref, mc, em, seed)
+        else:
+            case = {"origin": {"prog": prog, "top": cid}}
+            m = run_model_map(ctx, case, em)
+            if m is None:
+                c("hist:model-skipped (not exactly representable / size bound)")
+            elif m["result"] == "ok" and m["exact"]:
+                c("hist:exact-model")
+                probs += compare_with_model(case, ref, mc, em, m, well_conditioned(m))
+            elif m["result"] == "ok" or not m.get("exact", True):
+                c("hist:model-inexact (irrational settings):oracle-only")
+            else:
+                probs.append(f"corr: model raises {m['result']}, implementation maps the circuit")
+    # the caller goes on using the mapped circuit: a later map must not hand out (or depend on) this object again
+    try:
+        mc.ps(0, 0.5)
+        c("hist:mapped-circuit-modified-afterwards")
+    except Exception:  # noqa: BLE001
+        pass
+    return [p + where for p in probs]
+
+
+def run_history(ctx: Ctx, hist: dict, count: bool = False, hook=None, model: bool = True) -> list[str]:
+    """execute the history; problems of the first failing map step (later steps run on a world that is already
+    known to be wrong)"""
+    c = (lambda b: ctx.count(b)) if count else (lambda b: None)
+    world, rec = World(), Record()
+    for idx, st in enumerate(hist["steps"]):
+        if st[0] == "map":
+            if hook is not None:
+                hook(world, idx)
+            probs = check_map(ctx, world, rec, st, idx, c, model)
+            if probs:
+                return probs
+        else:
+            bad = apply_step(world, rec, st)
+            if bad is not None:
+                return [bad if bad.startswith("oracle") else "machinery: " + bad]
+            c("hist:step-" + (st[0] if st[0] != "c" else "circuit-" + st[1][0]))
+    return []
+
+
+class HistGen:
+    """random histories; keeps track of what exists so that every step is executable"""
+
+    def __init__(self, rng, max_n: int = 5) -> None:
+        self.rng = rng
+        self.max_n = max_n
+        self.steps: list = []
+        self.circs: dict = {}
+        self.params: dict = {}
+        self.dists: dict = {}
+        self.ems: list = []
+        self.recks: list = []
+        self.k = 0
+        self.seed = rng.choice([0, 1, 2**31 - 1, rng.randrange(10**6), rng.randrange(10**6)])
+
+    def name(self, p: str) -> str:
+        self.k += 1
+        return f"{p}{self.k}"
+
+    # -- circuits
+    def circuit(self, cid: str | None = None, n: int | None = None, sub: bool = False) -> str:
+        rng = self.rng
+        cid = cid or self.name("c")
+        n = n or rng.choice([k for k in [2, 3, 3, 4, 4, 5] if k <= self.max_n])
+        self.circs[cid] = {"n": n, "hin": set(), "hout": set(), "sub": sub}
+        if rng.random() < 0.4:
+            style = rng.choice(["givens", "real", "perm", "block"])
+            self.steps.append(["c", ["unitary", cid, cg.mat_json(recipe_unitary(n, rand_recipe(rng, n, style)))]])
+        else:
+            self.steps.append(["c", ["new", cid, n]])
+            for _ in range(rng.randint(1, 2 * n)):
+                self.grow(cid, allow=("prim", "param"))
+        return cid
+
+    def param(self, kind: str) -> str:
+        have = [p for p, k in self.params.items() if k == kind]
+        if have and self.rng.random() < 0.5:
+            return self.rng.choice(have)
+        pid = self.name("p")
+        self.params[pid] = kind
+        self.steps.append(["pnew", pid, kind, self.pvalue(kind)])
+        return pid
+
+    def pvalue(self, kind: str):
+        if kind == "ph":
+            return self.rng.choice(CIRCLE).s()
+        c, s = self.rng.choice(PYTH)
+        return [frac_str(c), frac_str(s)]
+
+    def grow(self, cid: str, allow=("prim", "param", "herald", "add")) -> None:
+        """one in-place change of an existing circuit"""
+        rng = self.rng
+        info = self.circs[cid]
+        n = info["n"]
+        w = rng.choice(allow)
+        if w == "herald":
+            fi = [m for m in range(n) if m not in info["hin"]]
+            fo = [m for m in range(n) if m not in info["hout"]]
+            if len(fi) <= 1 or info["sub"]:
+                w = "prim"
+            else:
+                i, o = rng.choice(fi), rng.choice(fo)
+                info["hin"].add(i)
+                info["hout"].add(o)
+                self.steps.append(["c", ["herald", cid, rng.choice([0, 1, 1, 2]), i, o]])
+                return
+        if w == "add":
+            if n < 2:
+                w = "prim"
+            else:
+                sz = rng.randint(1, n)
+                sid = self.name("s")
+                if rng.random() < 0.5:
+                    self.steps.append(["c", ["unitary", sid, cg.mat_json(cg.exact_unitary(rng, sz))]])
+                else:
+                    self.steps.append(["c", ["new", sid, sz]])
+                    self.circs[sid] = {"n": sz, "hin": set(), "hout": set(), "sub": True}
+                    for _ in range(rng.randint(1, 3)):
+                        self.grow(sid, allow=("prim", "param"))
+                    del self.circs[sid]
+                self.steps.append(["c", ["add", cid, sid, rng.randint(0, n - sz), rng.random() < 0.4]])
+                return
+        if w == "param":
+            if n >= 2 and rng.random() < 0.35:
+                m1, m2 = rng.sample(range(n), 2)
+                self.steps.append(["c", ["bsp", cid, m1, m2, self.param("r"), rng.choice(["Rx", "H"])]])
+            else:
+                self.steps.append(["c", ["psp", cid, rng.randrange(n), self.param("ph")]])
+            return
+        self.steps.append(["c", cg.rand_prim_op(rng, cid, n, 0.0, allow_loss=False)])
+
+    def change_circuit(self, cid: str) -> None:
+        """something that changes what `cid` implements, in place"""
+        rng = self.rng
+        used = [op[3 if op[0] == "psp" else 4] for st in self.steps if st[0] == "c"
+                for op in [st[1]] if op[0] in ("psp", "bsp")]
+        r = rng.random()
+        if used and r < 0.4:
+            pid = rng.choice(used)
+            self.steps.append(["pset", pid, self.pvalue(self.params[pid])])
+        elif r < 0.5:
+            # the object is replaced by a new one under the same name (the old one is garbage: its id may be reused)
+            self.circuit(cid, self.circs[cid]["n"])
+        else:
+            for _ in range(rng.randint(1, 3)):
+                self.grow(cid)
+
+    # -- error models
+    def dist(self, what: str, kind: str | None = None) -> str:
+        rng = self.rng
+        kind = kind or rng.choice(["const", "const", "random", "random", "ideal"])
+        if kind == "ideal":
+            d = IDEAL[what]
+        elif kind == "const":
+            d = rand_constant_em(rng)[what]
+        else:
+            d = rand_dist(rng, what)
+        did = self.name("d")
+        self.dists[did] = what
+        self.steps.append(["dnew", did, d])
+        return did
+
+    def shared_dist(self) -> str:
+        """a distribution that is valid for every quantity (so that one object can serve two of them)"""
+        rng = self.rng
+        lo = rng.uniform(0.3, 0.45)
+        d = rng.choice([{"kind": "tophat", "lo": lo, "hi": lo + rng.uniform(0, 0.1)},
+                        {"kind": "gaussian", "c": lo + 0.02, "d": rng.uniform(0.005, 0.05), "lo": lo, "hi": lo + 0.1},
+                        {"kind": "constant", "v": rng.choice([0.25, 0.5])}])
+        did = self.name("d")
+        self.dists[did] = "any"
+        self.steps.append(["dnew", did, d])
+        return did
+
+    def em(self) -> str:
+        eid = self.name("e")
+        self.ems.append(eid)
+        self.steps.append(["enew", eid])
+        return eid
+
+    def reck(self, form: str | None = None, eid: str | None = None) -> str:
+        form = form or self.rng.choice(["omitted", "none", "explicit", "em"])
+        if form == "em" and eid is None:
+            eid = self.rng.choice(self.ems) if self.ems and self.rng.random() < 0.5 else self.em()
+        rid = self.name("r")
+        self.recks.append(rid)
+        self.steps.append(["rnew", rid, form, eid if form == "em" else None])
+        return rid
+
+    def tune(self, rid: str | None = None) -> None:
+        """change an error model that is in use: in place through the Reck, in place through the ErrorModel object,
+        by re-assignment, by sharing a distribution object"""
+        rng = self.rng
+        rid = rid or rng.choice(self.recks)
+        r = rng.random()
+        what = rng.choice(["bs", "loss", "off"])
+        if r < 0.45:
+            self.steps.append(["rset", rid, what, self.dist(what)])
+        elif r < 0.6 and self.ems:
+            self.steps.append(["eset", rng.choice(self.ems), what, self.dist(what)])
+        elif r < 0.75:
+            self.steps.append(["rassign", rid, rng.choice([None, *self.ems]) if self.ems else None])
+        elif r < 0.9:
+            did = self.shared_dist()
+            a, b = rng.sample(["bs", "loss", "off"], 2)
+            self.steps.append(["rset", rid, a, did])
+            tgt = rng.choice(self.recks)
+            self.steps.append(["rset", tgt, b, did])
+        else:
+            have = list(self.dists)
+            if have:
+                did = rng.choice(have)
+                self.steps.append(rng.choice([["dseed", did, rng.choice([0, self.seed, rng.randrange(2**31)])],
+                                              ["ddraw", did, rng.randint(1, 5)]]))
+
+    def map(self, rid: str | None = None, cid: str | None = None, seed="hist") -> None:
+        rng = self.rng
+        rid = rid or rng.choice(self.recks)
+        tops = [c for c, i in self.circs.items() if not i["sub"]]
+        cid = cid or rng.choice(tops)
+        if seed == "hist":
+            seed = self.seed if rng.random() < 0.75 else rng.choice([None, 0, rng.randrange(10**6)])
+        self.steps.append(["map", rid, cid, seed])
+
+    def sweep(self) -> None:
+        cid = self.rng.choice([c for c, i in self.circs.items() if not i["sub"]])
+        for rid in self.recks:
+            self.map(rid, cid, self.seed)
+
+
+def gen_history(rng, kind: str, max_n: int = 5) -> dict:
+    g = HistGen(rng, max_n)
+    if kind == "circuit-inplace":
+        # one Reck, the SAME circuit object mapped repeatedly with in-place changes in between
+        rid = g.reck()
+        if rng.random() < 0.4:
+            g.tune(rid)
+        cid = g.circuit()
+        other = g.circuit() if rng.random() < 0.4 else None
+        g.map(rid, cid)
+        for _ in range(rng.randint(1, 3)):
+            g.change_circuit(cid)
+            if other and rng.random() < 0.3:
+                g.map(rid, other)
+            g.map(rid, cid)
+    elif kind == "em-inplace":
+        # one or two Recks, error model tuned / re-assigned / shared between maps of the same circuit
+        for _ in range(rng.randint(0, 2)):
+            g.em()
+        rids = [g.reck() for _ in range(rng.randint(1, 2))]
+        cid = g.circuit()
+        g.map(rids[0], cid)
+        for _ in range(rng.randint(1, 4)):
+            g.tune(rng.choice(rids))
+            g.map(rng.choice(rids), cid)
+        g.sweep()
+    elif kind == "defaults":
+        # several objects created with defaults; one is tuned in place; the others (created before AND after) stay ideal
+        forms = ["omitted", "none", "explicit"]
+        first = [g.reck(rng.choice(forms)) for _ in range(rng.randint(1, 2))]
+        cid = g.circuit()
+        if rng.random() < 0.5:
+            g.map(first[0], cid)
+        victim = rng.choice(first)
+        for what in rng.sample(["bs", "loss", "off"], rng.randint(1, 3)):
+            g.steps.append(["rset", victim, what, g.dist(what, rng.choice(["const", "random"]))])
+        if rng.random() < 0.5:
+            g.map(victim, cid)
+        for _ in range(rng.randint(1, 2)):
+            g.reck(rng.choice(forms))
+        if rng.random() < 0.5:
+            # the same for default ErrorModel objects
+            e1, e2 = g.em(), g.em()
+            what = rng.choice(["bs", "loss", "off"])
+            g.steps.append(["eset", e1, what, g.dist(what, rng.choice(["const", "random"]))])
+            g.reck("em", e2)
+            g.em()
+            g.reck("em", g.ems[-1])
+        g.sweep()
+    else:
+        # mixed: several circuits, several Recks, everything interleaved
+        for _ in range(rng.randint(0, 2)):
+            g.em()
+        for _ in range(rng.randint(1, 3)):
+            g.reck()
+        for _ in range(rng.randint(1, 2)):
+            g.circuit()
+        for _ in range(rng.randint(3, 8)):
+            r = rng.random()
+            if r < 0.3:
+                g.tune()
+            elif r < 0.55:
+                g.change_circuit(rng.choice([c for c, i in g.circs.items() if not i["sub"]]))
+            elif r < 0.62:
+                g.reck()
+            elif r < 0.67:
+                g.circuit()
+            else:
+                g.map()
+        g.sweep()
+    return {"kind": "history:" + kind, "steps": g.steps}
+
+
+def corpus_histories() -> list[dict]:
+    """directed histories (always run first)"""
+    ph = [GQ(Fraction(3, 5), Fraction(4, 5)).s(), GQ(Fraction(-5, 13), Fraction(12, 13)).s(), GQ(0, 1).s()]
+    th = {"kind": "tophat", "lo": 0.1, "hi": 0.2}
+    c45 = {"kind": "constant", "v": 0.36, "cs": ["3/5", "4/5"]}
+    off = {"kind": "constant", "v": math.atan2(0.8, 0.6), "p": "3/5,4/5"}
+    gau = {"kind": "gaussian", "c": 0.0, "d": 0.05, "lo": -0.2, "hi": 0.2}
+    circ4 = [["c", ["new", "c1", 4]], ["pnew", "p1", "ph", ph[0]], ["pnew", "p2", "r", ["3/5", "4/5"]],
+             ["c", cg.op_bs("c1", 0, 1, Fraction(3, 5), Fraction(4, 5))],
+             ["c", cg.op_bs("c1", 2, 3, Fraction(5, 13), Fraction(12, 13))],
+             ["c", ["psp", "c1", 1, "p1"]], ["c", ["bsp", "c1", 1, 2, "p2", "Rx"]],
+             ["c", cg.op_ps("c1", 2, GQ.parse(ph[1]))], ["c", cg.op_bs("c1", 0, 1, Fraction(4, 5), Fraction(3, 5))]]
+    u3 = cg.mat_json(recipe_unitary(3, [["giv", 0, 1, "3/5", "4/5", "0,1"], ["giv", 1, 2, "5/13", "12/13", "1,0"],
+                                        ["ph", 0, "-3/5,4/5"]]))
+    out = []
+    # the same Reck maps the same circuit object; Parameter.set / appended components / heralds in between
+    for form in ("omitted", "em"):
+        pre = [["enew", "e1"]] if form == "em" else []
+        out.append({"kind": "history:corpus-parameter-set", "steps": [
+            *pre, ["rnew", "r1", form, "e1" if form == "em" else None], *circ4, ["map", "r1", "c1", None],
+            ["pset", "p1", ph[1]], ["map", "r1", "c1", None], ["pset", "p2", ["5/13", "12/13"]],
+            ["map", "r1", "c1", 3], ["pset", "p1", ph[0]], ["pset", "p2", ["3/5", "4/5"]], ["map", "r1", "c1", 3]]})
+    out.append({"kind": "history:corpus-components-appended", "steps": [
+        ["rnew", "r1", "omitted", None], ["c", ["new", "c1", 3]],
+        ["c", cg.op_bs("c1", 0, 1, Fraction(3, 5), Fraction(4, 5))], ["c", cg.op_ps("c1", 1, GQ.parse(ph[0]))],
+        ["map", "r1", "c1", 0], ["c", cg.op_bs("c1", 1, 2, Fraction(5, 13), Fraction(12, 13), "H")],
+        ["map", "r1", "c1", 0], ["c", ["unitary", "s1", u3]], ["c", ["add", "c1", "s1", 0, False]],
+        ["map", "r1", "c1", 0], ["c", ["swaps", "c1", [[0, 2], [2, 1], [1, 0]]]], ["map", "r1", "c1", 0],
+        ["c", ["herald", "c1", 1, 0, 2]], ["map", "r1", "c1", 0], ["c", ["unitary", "s2", u3]],
+        ["c", ["add", "c1", "s2", 0, True]], ["map", "r1", "c1", 0]]})
+    # two circuits alternate on one Reck; one of them is replaced by a new object under the same name
+    out.append({"kind": "history:corpus-two-circuits", "steps": [
+        ["rnew", "r1", "none", None], *circ4, ["c", ["unitary", "c2", u3]], ["map", "r1", "c2", 1], ["map", "r1", "c1", 1], ["map", "r1", "c2", 1],
+        ["c", ["new", "c2", 3]], ["c", cg.op_bs("c2", 0, 2, Fraction(3, 5), Fraction(4, 5))], ["map", "r1", "c2", 1],
+        ["c", ["new", "c2", 3]], ["c", cg.op_bs("c2", 1, 2, Fraction(3, 5), Fraction(4, 5))], ["map", "r1", "c2", 1]]})
+    # the same circuit object goes through several Recks (created before and after) while it changes
+    out.append({"kind": "history:corpus-circuit-shared-by-recks", "steps": [
+        ["rnew", "r1", "omitted", None], ["rnew", "r2", "explicit", None], *circ4, ["map", "r1", "c1", 2],
+        ["pset", "p1", ph[2]], ["map", "r2", "c1", 2], ["c", ["psp", "c1", 3, "p1"]], ["map", "r1", "c1", 2],
+        ["rnew", "r3", "none", None], ["pset", "p2", ["4/5", "3/5"]], ["map", "r3", "c1", 2], ["map", "r2", "c1", 2],
+        ["map", "r1", "c1", 2]]})
+    # default components per object: Reck() / Reck(None) / Reck(ErrorModel()), one tuned in place
+    for form in ("omitted", "none", "explicit"):
+        for what, d in (("loss", th), ("bs", c45), ("off", off), ("off", gau)):
+            out.append({"kind": "history:corpus-defaults", "steps": [
+                ["rnew", "r0", form, None], ["rnew", "r1", form, None], ["c", ["unitary", "c1", u3]],
+                ["dnew", "d1", d], ["rset", "r1", what, "d1"], ["map", "r1", "c1", 5], ["rnew", "r2", form, None],
+                ["rnew", "r3", "omitted", None], ["map", "r2", "c1", 5], ["map", "r0", "c1", 5],
+                ["map", "r3", "c1", None], ["map", "r1", "c1", 5]]})
+    # default ErrorModel objects; a distribution object shared by two quantities and by two error models
+    out.append({"kind": "history:corpus-default-error-models", "steps": [
+        ["enew", "e1"], ["enew", "e2"], ["dnew", "d1", th], ["eset", "e1", "loss", "d1"], ["enew", "e3"],
+        ["rnew", "r1", "em", "e1"], ["rnew", "r2", "em", "e2"], ["rnew", "r3", "em", "e3"],
+        ["c", ["unitary", "c1", u3]], ["map", "r2", "c1", 7], ["map", "r3", "c1", 7], ["map", "r1", "c1", 7],
+        ["eset", "e2", "bs", "d1"], ["map", "r2", "c1", 7], ["map", "r1", "c1", 7], ["eset", "e1", "off", "d1"],
+        ["map", "r1", "c1", 7], ["dseed", "d1", 7], ["ddraw", "d1", 3], ["map", "r1", "c1", 7],
+        ["map", "r2", "c1", 7], ["map", "r3", "c1", 7]]})
+    # the error model handed over at construction is tuned afterwards; re-assignment; back to ideal
+    out.append({"kind": "history:corpus-error-model-retuned", "steps": [
+        ["enew", "e1"], ["rnew", "r1", "em", "e1"], *circ4, ["map", "r1", "c1", 11], ["dnew", "d1", gau],
+        ["eset", "e1", "off", "d1"], ["map", "r1", "c1", 11], ["map", "r1", "c1", 11], ["dnew", "d2", th],
+        ["rset", "r1", "loss", "d2"], ["map", "r1", "c1", 11], ["dnew", "d3", c45], ["rset", "r1", "bs", "d3"],
+        ["map", "r1", "c1", 11], ["enew", "e2"], ["rassign", "r1", "e2"], ["map", "r1", "c1", 11],
+        ["rassign", "r1", "e1"], ["map", "r1", "c1", 11], ["rassign", "r1", None], ["map", "r1", "c1", 11],
+        ["rnew", "r2", "em", "e1"], ["map", "r2", "c1", 11], ["map", "r2", "c1", 12], ["map", "r2", "c1", 11]]})
+    return out
+
+
+class Pristine:
+    """A forked copy of this process, taken before any history has been executed.  Every request is executed in a
+    further fork of that copy, i.e. in a process in which no object of an earlier history ever existed.  A history
+    that fails there is a self-contained replay; a history that fails only in the long-lived process of the check
+    depends on state that finished histories left behind in the library."""
+
+    def __init__(self) -> None:
+        import os
+
+        self.os = os
+        r1, w1 = os.pipe()
+        r2, w2 = os.pipe()
+        pid = os.fork()
+        if pid == 0:
+            try:
+                os.close(w1)
+                os.close(r2)
+                fin, fout = os.fdopen(r1, "r"), os.fdopen(w2, "w")
+                for line in fin:
+                    rr, ww = os.pipe()
+                    p = os.fork()
+                    if p == 0:
+                        os.close(rr)
+                        try:
+                            res = run_history(None, json.loads(line), model=False)
+                        except BaseException as e:  # noqa: BLE001
+                            res = [f"machinery: the history raised {type(e).__name__}: {e}"]
+                        os.write(ww, json.dumps(res).encode())
+                        os._exit(0)
+                    os.close(ww)
+                    data = b""
+                    while True:
+                        chunk = os.read(rr, 65536)
+                        if not chunk:
+                            break
+                        data += chunk
+                    os.close(rr)
+                    os.waitpid(p, 0)
+                    fout.write((data.decode() or '["machinery: no answer from the forked process"]') + "\n")
+                    fout.flush()
+            finally:
+                os._exit(0)
+        os.close(r1)
+        os.close(w2)
+        self.fout, self.fin, self.pid = os.fdopen(w1, "w"), os.fdopen(r2, "r"), pid
+
+    def run(self, hist: dict) -> list[str]:
+        self.fout.write(json.dumps(hist, default=str) + "\n")
+        self.fout.flush()
+        line = self.fin.readline()
+        if not line:
+            raise MachineryFault("history stream: the pristine process died")
+        return json.loads(line)
+
+    def close(self) -> None:
+        try:
+            self.fout.close()
+            self.fin.close()
+            self.os.waitpid(self.pid, 0)
+        except Exception:  # noqa: BLE001
+            pass
+
+
+_PRISTINE: list = []
+
+
+def pristine() -> Pristine:
+    if not _PRISTINE:
+        _PRISTINE.append(Pristine())
+    return _PRISTINE[0]
+
+
+def shrink_history(ctx: Ctx, hist: dict, probs: list[str], fresh: bool) -> tuple[dict, list[str]]:
+    """fewer steps with a problem of the same kind; `fresh`: every candidate runs in a pristine process (oracle
+    problems), otherwise in this process (model comparison)"""
+    target = kind_of(probs[0])
+
+    def fails(steps: list) -> list[str]:
+        cand = {"kind": hist["kind"], "steps": steps}
+        try:
+            ps = pristine().run(cand) if fresh else run_history(ctx, cand)
+        except MachineryFault:
+            raise
+        except Exception:  # noqa: BLE001
+            return []
+        return [p for p in ps if kind_of(p) == target and not p.startswith("machinery")]
+
+    best = {"steps": list(hist["steps"]), "probs": probs}
+
+    def still(steps: list) -> bool:
+        ps = fails(steps)
+        if ps:
+            best["steps"], best["probs"] = steps, ps
+            return True
+        return False
+
+    # cut after the failing map step, then remove steps
+    m = [int(x) for p in probs for x in [p.split("[history step ")[-1].split(":")[0]] if "[history step " in p]
+    if m:
+        still(hist["steps"][: m[0] + 1])
+    ddmin(best["steps"], still, max_tests=150)
+    return {"kind": hist["kind"], "steps": best["steps"]}, best["probs"]
+
+
+_HIST_REPORTED: list = []
+
+
+def check_history(ctx: Ctx, hist: dict, sample: bool = False) -> None:
+    probs = run_history(ctx, hist, count=True)
+    maps = [s for s in hist["steps"] if s[0] == "map"]
+    ctx.case(json.dumps(hist["steps"], sort_keys=True, default=str), bool(maps),
+             sample={"kind": hist["kind"], "steps": len(hist["steps"]), "maps": len(maps)} if sample else None)
+    if not probs:
+        return
+    ctx.count("histories_with_problems")
+    if probs[0].startswith("machinery"):
+        raise MachineryFault(f"history stream: {probs[0]} :: {json.dumps(hist, default=str)[:600]}")
+    if not probs[0].startswith("oracle"):
+        small, sprobs = shrink_history(ctx, hist, probs, fresh=False)
+        key = json.dumps(small["steps"], sort_keys=True, default=str)
+        if key not in _REPORTED:
+            _REPORTED.add(key)
+            ctx.disagreement(sprobs[0], {"case": small, "problems": sprobs, "script": history_script(small)})
+        return
+    # a clause of the property fails in this (long-lived) process: does the history fail on its own?
+    alone = [p for p in pristine().run(hist) if p.startswith("oracle") and kind_of(p) == kind_of(probs[0])]
+    if not alone:
+        if _HIST_REPORTED:
+            # e.g. a default shared by all objects that an earlier, already reported history has changed
+            ctx.count("hist:fails-only-after-an-already-reported-history")
+            return
+        ctx.count("hist:fails-only-after-earlier-histories")
+        _HIST_REPORTED.append(None)
+        ctx.violation(probs[0] + "  -- the history holds in a process of its own and fails only in a process in which "
+                      "other, finished histories (independent objects) ran before: state leaks between objects",
+                      {"case": hist, "problems": probs, "script": history_script(hist)},
+                      sig={"kind": kind_of(probs[0])}, found_input=False)
+        return
+    small, sprobs = shrink_history(ctx, hist, alone, fresh=True)
+    key = json.dumps(small["steps"], sort_keys=True, default=str)
+    if key in _REPORTED:
+        ctx.count("duplicate_of_reported_replay")
+        return
+    _REPORTED.add(key)
+    _HIST_REPORTED.append(key)
+    ctx.violation(sprobs[0], {"case": small, "problems": sprobs, "script": history_script(small)},
+                  sig={"kind": kind_of(sprobs[0])})
+
+
+def history_script(hist: dict) -> list[str]:
+    """the history as Python statements against the public API (for the reader of a replay)"""
+    out = []
+    for st in hist["steps"]:
+        n = st[0]
+        if n == "c":
+            op = st[1]
+            if op[0] == "psp":
+                out.append(f"{op[1]}.ps({op[2]}, {op[3]})")
+            elif op[0] == "bsp":
+                out.append(f"{op[1]}.bs({op[2]}, {op[3]}, reflectivity={op[4]}, convention={op[5]!r})")
+            elif op[0] == "new":
+                out.append(f"{op[1]} = lw.Circuit({op[2]})")
+            elif op[0] == "unitary":
+                out.append(f"{op[1]} = lw.Unitary(<exact {len(op[2])}x{len(op[2])} unitary>)")
+            elif op[0] == "bs":
+                out.append(f"{op[1]}.bs({op[2]}, {op[3]}, reflectivity=({op[4]})**2, convention={op[6]!r})")
+            elif op[0] == "ps":
+                out.append(f"{op[1]}.ps({op[2]}, arg({op[3]}))")
+            elif op[0] == "add":
+                out.append(f"{op[1]}.add({op[2]}, {op[3]}, group={op[4]})")
+            elif op[0] == "herald":
+                out.append(f"{op[1]}.herald({op[2]}, {op[3]}, {op[4]})")
+            elif op[0] == "swaps":
+                out.append(f"{op[1]}.mode_swaps({dict((a, b) for a, b in op[2])})")
+            else:
+                out.append(f"{op[1]}.{op[0]}({op[2:]})")
+        elif n == "pnew":
+            out.append(f"{st[1]} = lw.Parameter({param_value(st[2], st[3])!r})")
+        elif n == "pset":
+            out.append(f"{st[1]}.set(<{st[2]}>)")
+        elif n == "dnew":
+            out.append(f"{st[1]} = {st[2]}")
+        elif n == "enew":
+            out.append(f"{st[1]} = ErrorModel()")
+        elif n == "eset":
+            out.append(f"{st[1]}.{ATTR[st[2]]} = {st[3]}")
+        elif n == "rnew":
+            arg = {"omitted": "", "none": "None", "explicit": "ErrorModel()"}.get(st[2], st[3])
+            out.append(f"{st[1]} = Reck({arg})")
+        elif n == "rset":
+            out.append(f"{st[1]}.error_model.{ATTR[st[2]]} = {st[3]}")
+        elif n == "rassign":
+            out.append(f"{st[1]}.error_model = {st[2] or 'ErrorModel()'}")
+        elif n == "dseed":
+            out.append(f"{st[1]}.set_random_seed({st[2]})")
+        elif n == "ddraw":
+            out.append(f"[{st[1]}.value() for _ in range({st[2]})]")
+        elif n == "map":
+            out.append(f"{st[1]}.map({st[2]}, seed={st[3]})   # checked")
+    return out
+
+
+def history_self_test(ctx: Ctx) -> None:
+    """the history oracle must notice (a) an error model changed behind the record's back (what a default shared
+    between objects looks like) and (b) a circuit changed behind the record's back (what a stale decomposition
+    looks like from the other side).  Uses a Reck with an explicitly constructed error model, so that the tampering
+    cannot touch anything but the objects of this one history."""
+    hist = corpus_histories()[1]
+    assert hist["steps"][1][:3] == ["rnew", "r1", "em"]
+
+    def leak(world: World, idx: int) -> None:
+        world.recks["r1"].error_model.loss = Constant(0.1)
+
+    def stale(world: World, idx: int) -> None:
+        world.params["p1"].set(0.123)
+
+    if run_history(ctx, hist, model=False):
+        # the directed history itself fails on this implementation: it is reported by the stream below
+        ctx.count("self-test:history-skipped (the directed history already fails)")
+        return
+    for hook, what in ((leak, "a leaked error model"), (stale, "a circuit that differs from the recorded one")):
+        ps = run_history(ctx, hist, hook=hook, model=False)
+        if not any(p.startswith("oracle:") for p in ps):
+            raise MachineryFault(f"self-test: the history oracle does not notice {what}")
+    ctx.count("self-test:history-passed")
+
+
+def history_stream(ctx: Ctx) -> None:
+    rng = ctx.rng
+    pristine()
+    history_self_test(ctx)
+    for i, h in enumerate(corpus_histories()):
+        ctx.count("gen:" + h["kind"])
+        check_history(ctx, h, sample=i == 0)
+    kinds = ["circuit-inplace", "circuit-inplace", "em-inplace", "em-inplace", "defaults", "mixed", "mixed"]
+    for _ in range(ctx.n(70, 600)):
+        if ctx.out_of_time():
+            break
+        kind = rng.choice(kinds)
+        h = gen_history(rng, kind, 5 if not ctx.thorough else 6)
+        ctx.count("gen:" + h["kind"])
+        check_history(ctx, h)
+
+
+# ----------------------------------------------------------------------------- across processes
+
+_CHILD = r"""
+import json, sys
+import numpy as np
+import lightworks as lw
+from lightworks.interferometers import ErrorModel, Reck
+from lightworks.interferometers.dists import Constant, Gaussian, TopHat
+
+def dist(d):
+    if d["kind"] == "constant":
+        return Constant(d["v"])
+    if d["kind"] == "gaussian":
+        return Gaussian(d["c"], d["d"], d.get("lo"), d.get("hi"))
+    return TopHat(d["lo"], d["hi"])
+
+out = []
+for job in json.load(sys.stdin):
+    objs = {}
+    e = ErrorModel()
+    for attr, key in (("bs_reflectivity", "bs"), ("loss", "loss"), ("phase_offset", "off")):
+        name = job["share"].get(key, key)
+        if name not in objs:
+            objs[name] = dist(job["em"][name])
+        setattr(e, attr, objs[name])
+    u = np.array([[complex(*x) for x in row] for row in job["U"]])
+    mc = Reck(e).map(lw.Unitary(u), seed=job["seed"])
+    spec = []
+    for s in mc._get_circuit_spec():
+        t = type(s).__name__
+        if t == "PhaseShifter":
+            spec.append(["ps", s.mode, float(s.phi)])
+        elif t == "BeamSplitter":
+            spec.append(["bs", s.mode_1, s.mode_2, float(s.reflectivity), s.convention])
+        elif t == "Loss":
+            spec.append(["loss", s.mode, float(s.loss)])
+        elif t == "Barrier":
+            spec.append(["barrier", list(s.modes)])
+        else:
+            spec.append([t])
+    out.append(spec)
+print(json.dumps(out))
+"""
+
+
+def process_jobs(ctx: Ctx, jobs: list, hashseeds: list[str], here: str) -> None:
+    import os
+    import subprocess
+    import sys
+
+    mine = []
+    for job in jobs:
+        objs: dict = {}
+        e = ErrorModel()
+        for key in ATTR:
+            name = job["share"].get(key, key)
+            if name not in objs:
+                objs[name] = build_dist(job["em"][name])
+            setattr(e, ATTR[key], objs[name])
+        u = np.array([[complex(*x) for x in row] for row in job["U"]])
+        mine.append(observe_spec(Reck(e).map(lw.Unitary(u), seed=job["seed"])))
+    for hs in hashseeds:
+        r = subprocess.run([sys.executable, "-B", "-c", _CHILD], input=json.dumps(jobs), capture_output=True, text=True,
+                           env=dict(os.environ, PYTHONHASHSEED=hs), timeout=600, check=False)
+        if r.returncode != 0:
+            # the child runs nothing but the implementation: it refuses / crashes there although it maps here
+            tail = r.stderr.strip().splitlines()[-1][:200] if r.stderr.strip() else "no output"
+            ctx.violation("oracle: seed: mapping the same (circuit, error model, seed) fails in another interpreter "
+                          "process: " + tail,
+                          {"process": jobs, "pythonhashseeds": [here, hs]}, sig={"kind": "seed"}, found_input=False)
+            return
+        theirs = json.loads(r.stdout.strip().splitlines()[-1])
+        for job, a, b in zip(jobs, mine, theirs):
+            ctx.count("process:seeded-map-compared")
+            ctx.case(("process", hs, json.dumps(job, sort_keys=True)), True, None)
+            d = spec_diff(a, b)
+            if d is not None:
+                ctx.violation("oracle: seed: the same circuit, error model and seed give a different mapped circuit "
+                              f"in another interpreter process (PYTHONHASHSEED {here} / {hs}): {d}",
+                              {"process": [job], "pythonhashseeds": [here, hs]}, sig={"kind": "seed"})
+                return
+
+
+def cross_process(ctx: Ctx) -> None:
+    """the same (circuit, error model, seed) mapped in ANOTHER interpreter process (different string-hash seed) must
+    program the same numbers: a seed is what makes a noisy mapping reproducible from run to run"""
+    import os
+
+    rng = ctx.rng
+    jobs = []
+    for i in range(ctx.n(4, 12)):
+        n = rng.choice([2, 3, 4])
+        u = recipe_unitary(n, rand_recipe(rng, n, "givens"))
+        em = rand_random_em(rng)
+        share = {}
+        if i % 4 == 3:
+            # one distribution object serves two quantities
+            lo = rng.uniform(0.3, 0.45)
+            em["bs"] = {"kind": "tophat", "lo": lo, "hi": lo + 0.1}
+            share = {"loss": "bs"}
+        jobs.append({"U": [[[float(x.re), float(x.im)] for x in row] for row in u], "em": em, "share": share,
+                     "seed": rng.choice([0, 1, 2**31 - 1, rng.randrange(10**6)])})
+    here = os.environ.get("PYTHONHASHSEED", "0")
+    base = int(here) if here.isdigit() else 0
+    process_jobs(ctx, jobs, [str((base + 1 + k) % 4294967295) for k in range(ctx.n(1, 2))], here)
+
+
 def self_test(ctx: Ctx) -> None:
     """the comparison code must notice a wrong mapping: perturb one programmed phase of a mapped circuit"""
     u = ctx.model.call({"op": "reck", "cmd": "synth", "n": 3,
@@ -1046,6 +2022,7 @@ def run(ctx: Ctx) -> None:
                 "error models: default, exact constant, random Gaussian/TopHat, malformed; non-trivial = at least one "
                 "unit cell (n >= 2) or a rejected input; distinct = distinct case description")
     rng = ctx.rng
+    pristine()  # forked before anything has been run on the implementation
     self_test(ctx)
     n_cases = ctx.n(500, 4000)
     max_n = 6 if not ctx.thorough else 8
@@ -1064,13 +2041,32 @@ def run(ctx: Ctx) -> None:
             ctx.count("cases_with_problems")
             report(ctx, case, probs)
     dist_checks(ctx, rng, ctx.n(40, 400))
+    history_stream(ctx)
+    cross_process(ctx)
 
 
 def replay(ctx: Ctx, path: str) -> None:
     data = json.load(open(path))["replay"]
     if "dist" in data:
         raise MachineryFault("distribution replays are re-run by the normal check")
+    if "process" in data:
+        here, other = data["pythonhashseeds"]
+        process_jobs(ctx, data["process"], [other], here)
+        return
     case = data["case"]
+    if str(case.get("kind", "")).startswith("history"):
+        probs = run_history(ctx, case, count=True)
+        ctx.case("replay", True, sample={"kind": case.get("kind")})
+        for line in history_script(case):
+            print("replay:  ", line)
+        for p in probs:
+            print("replay:", p)
+        oracle_p = [p for p in probs if p.startswith("oracle")]
+        if oracle_p:
+            ctx.violation(oracle_p[0], data, sig={"kind": kind_of(oracle_p[0])})
+        elif probs:
+            ctx.disagreement(probs[0], data)
+        return
     probs = run_case(ctx, materialise(ctx, case), count=True)
     ctx.case("replay", True, sample={"kind": case.get("kind")})
     for p in probs:
